@@ -761,8 +761,43 @@ M('c20_try_extend_strict', ['C20'], ['C20-R1'], 'postcard flavor refuses a slice
 M('c08_owned_rename_swapped', ['C08'], ['C08-R7'], 'to_owned clones the identities of Rename in swapped order',
   ('src/runtime.rs', 'OwnedNotification::Rename(before.clone(), after.clone())', 'OwnedNotification::Rename(after.clone(), before.clone())'))
 
+# ---------------------------------------------------------------- C14
+M('c14_skip_one_more', ['C14'], ['C14-R3'], 'the forward scan starts one record after the cursor: the record at the cursor is only reachable by wrapping',
+  (MEMBER, '            .skip(self.cursor)\n            .position(|m| m.is_active())', '            .skip(self.cursor.saturating_add(1))\n            .position(|m| m.is_active())'))
+M('c14_advance_by_two', ['C14'], ['C14-R4'], 'the cursor jumps over the record after the one just probed',
+  (MEMBER, 'self.cursor = pos.saturating_add(1);', 'self.cursor = pos.saturating_add(2);'))
+M('c14_no_cursor_reset', ['C14'], ['C14-R4'], 'the cursor stays past the end after the reshuffle: every round wraps to the first active record',
+  (MEMBER, '            self.inner.shuffle(&mut rng);\n            self.cursor = 0;', '            self.inner.shuffle(&mut rng);'))
+M('c14_wrap_test_inclusive', ['C14'], ['C14-R4'], 'a record found exactly at the cursor counts as wrapped: the pass is cut short and reshuffled',
+  (MEMBER, '            if pos < self.cursor {', '            if pos <= self.cursor {'))
+M('c14_wrap_repeats', ['C14'], ['C14-R4'], 'after wrapping the cursor points at the record just probed: it is probed again and again',
+  (MEMBER, '                self.cursor = usize::MAX;', '                self.cursor = pos;'))
+M('c14_fallback_short', ['C14'], ['C14-R3'], 'the wrap-around scan stops one record before the cursor',
+  (MEMBER, '                .take(self.cursor)\n', '                .take(self.cursor.saturating_sub(1))\n'))
+M('c14_scan_predicate_any_record', ['C14'], ['C14-R3'], 'the forward scan accepts any record, Down ones included',
+  (MEMBER, '            .skip(self.cursor)\n            .position(|m| m.is_active())', '            .skip(self.cursor)\n            .position(|_m| true)'))
+M('c14_shuffle_every_round', ['C14'], ['C14-R4'], 'the vector is reshuffled on every call: the pass structure is lost (a member can be missed for arbitrarily long)',
+  (MEMBER, '        if self.cursor >= self.inner.len() {\n            self.inner.shuffle(&mut rng);\n            self.cursor = 0;\n        }',
+   '        self.inner.shuffle(&mut rng);\n        if self.cursor >= self.inner.len() {\n            self.cursor = 0;\n        }'))
+M('c14_existing_update_resets_cursor', ['C14'], ['C14-R5'], 'every update about a known member rewinds the cursor: records at the end starve under traffic',
+  (MEMBER, '            let was_active = known_member.is_active();', '            self.cursor = 0;\n            let was_active = known_member.is_active();'))
+M('c14_suspect_moved_to_front', ['C14'], ['C14-R5'], 'apply_existing_if reorders the vector while the member set is stable',
+  (MEMBER, '            Some(ApplySummary {\n                is_active_now,\n                apply_successful,\n                changed_active_set,\n                conflict,\n            })',
+   '            if apply_successful && self.inner.len() > 1 {\n                let last = self.inner.len() - 1;\n                self.inner.swap(0, last);\n            }\n            Some(ApplySummary {\n                is_active_now,\n                apply_successful,\n                changed_active_set,\n                conflict,\n            })'))
+M('c14_is_active_includes_down_zero', ['C14'], ['C14-R2'], 'Member::is_active counts Down records at the maximum incarnation as active',
+  (MEMBER, '            State::Alive | State::Suspect => true,\n            State::Down => false,', '            State::Alive | State::Suspect => true,\n            State::Down => self.incarnation == Incarnation::MAX,'))
+N('c14_reset_test_strict', ['C14'], 'cursor > len instead of >=: a cursor equal to len wraps first and is reset one round later (bound unaffected)',
+  (MEMBER, '        if self.cursor >= self.inner.len() {', '        if self.cursor > self.inner.len() {'))
+N('c14_wrap_plain_round_robin', ['C14'], 'after wrapping the cursor moves to index + 1 (plain round-robin, no reshuffle): every window of n rounds covers everyone',
+  (MEMBER, '                self.cursor = usize::MAX;', '                self.cursor = pos.saturating_add(1);'))
+N('c14_flipped_comparisons', ['C14'], 'comparisons written the other way round',
+  (MEMBER, '        if self.cursor >= self.inner.len() {', '        if self.inner.len() <= self.cursor {'),
+  (MEMBER, '            if pos < self.cursor {', '            if self.cursor > pos {'))
+N('c14_remove_resets_cursor', ['C14'], 'remove_if_down rewinds the cursor (the member set changed: any starting cursor is allowed)',
+  (MEMBER, '        position.map(|pos| self.inner.swap_remove(pos))', '        if position.is_some() {\n            self.cursor = 0;\n        }\n        position.map(|pos| self.inner.swap_remove(pos))'))
+
 # ================================================================ neutral (behaviour-preserving) edits
-ALL = ['C01', 'C06', 'C07', 'C08', 'C09', 'C10', 'C11', 'C12', 'C13', 'C15', 'C16', 'C17', 'C18', 'C19', 'C20']
+ALL = ['C01', 'C06', 'C07', 'C08', 'C09', 'C10', 'C11', 'C12', 'C13', 'C14', 'C15', 'C16', 'C17', 'C18', 'C19', 'C20']
 N('n_comments_and_blank_lines', ALL, 'comments and blank lines added; every line number after them shifts',
   (LIB, 'impl<T, C, RNG> Foca<T, C, RNG, NoCustomBroadcast>\nwhere', '// a comment\n// another one\n\n\nimpl<T, C, RNG> Foca<T, C, RNG, NoCustomBroadcast>\nwhere'),
   (MEMBER, 'pub type Incarnation = u16;', '// moved\n\n\npub type Incarnation = u16;'))
